@@ -6,9 +6,9 @@
 package vbroker
 
 import (
-	"errors"
 	"bufio"
 	"encoding/base64"
+	"errors"
 	"fmt"
 	"io"
 	"net"
@@ -113,6 +113,7 @@ func (b *Broker) stop() {
 	}
 	b.Settle()
 	b.Svc.Close()
+	b.Svc.VerifRelease()
 }
 
 // MintKey encrypts a key built from explicit fields.
